@@ -896,7 +896,12 @@ func c17RespeltNeighbourProbe(res *core.Result) {
 	for _, lit := range lits {
 		for _, nx := range nexts {
 			for _, trail := range []string{" // after first\n\n", "\n// after first\n\n"} {
-				src := "// Header.\n\n// Package a.\npackage a\n\nimport \"fmt\"\n\n// first is untouched.\nfunc first() float64 {\n\t// inside first\n\treturn " + lit + " // trailing in first\n}" + trail +
+				result := "float64"
+				if lit == "0xFF" {
+					// the spelling gofmt keeps, and a result in parentheses that gofmt drops
+					result = "(float64)"
+				}
+				src := "// Header.\n\n// Package a.\npackage a\n\nimport \"fmt\"\n\n// first is untouched.\nfunc first() " + result + " {\n\t// inside first\n\treturn " + lit + " // trailing in first\n}" + trail +
 					nx[0] + "\n\n// third is untouched.\nfunc third() {\n\t// inside third\n\tfmt.Println(\"hello\")\n} // after third\n\nfunc fourth() { fmt.Println(\"rewritten\") }\n"
 				pt := "@@\n@@\n-fmt.Println(\"rewritten\")\n+fmt.Print(\"rewritten\")\n\n@@\n@@\n" + nx[1]
 				if !gen.Parses(src) {
